@@ -12,7 +12,7 @@
 (*       an outer); every ring is a cyclic sequence of vertex symbols listed              *)
 (*       counter-clockwise. Cutting every ring into 1..MaxPieces ways, reversing any      *)
 (*       subset and listing the ways in any order is a small generating machine           *)
-(*       (CutRing, Place) and, equivalently, the set Cases(g).                            *)
+(*       (AddCut, CloseRing, Place) and, equivalently, the set Cases(g).                  *)
 (*   MODEL  the algorithms as a deterministic step machine over one record `st`:          *)
 (*       every named action is a pair  Guard_X(s) / Eff_X(s);  the same pairs give the    *)
 (*       function Step / RunToEnd used by the Judge module to predict the exact result    *)
